@@ -154,6 +154,67 @@ theorem migrate_workspace_owners (trL : Lint → Lint) (trB : Breaking → Break
   rw [← owners_migrateWorkspace trL trB ws f]
   exact owners_perm (migrateFile_modules_perm h) f
 
+/-! ### the "switched off" flag of lint / breaking survives the migration (after the fix) -/
+
+theorem equivCheck_disabled (tr : Check → Check) (htr : ∀ x, x.disabled = false → (tr x).disabled = false)
+    (c : Check) : (equivCheck tr c).disabled = c.disabled := by
+  unfold equivCheck
+  cases hd : c.disabled with
+  | true => simp [Check.disabledCfg]
+  | false => simpa using htr c hd
+
+theorem equivCheck_wf (tr : Check → Check) (c : Check)
+    (h : c.disabled = false → WFCheck (tr c)) : WFCheck (equivCheck tr c) := by
+  unfold equivCheck
+  cases hd : c.disabled with
+  | true => simpa using wfCheck_disabled
+  | false => simpa using h hd
+
+/-- The flags of a migrated module: (directory, lint switched off, breaking switched off). -/
+def offFlags (m : Module) : Key × Bool × Bool := (m.dirPath, m.lint.chk.disabled, m.breaking.chk.disabled)
+
+theorem mem_migrateWorkspace {trL : Lint → Lint} {trB : Breaking → Breaking} {ws : List Module} {m' : Module} :
+    m' ∈ migrateWorkspace trL trB ws ↔
+      ∃ m ∈ ws, ∃ r ∈ m.roots,
+        m' = ⟨m.dirPath ++ r.root, if m.roots.length > 1 then [] else m.name,
+              [⟨[], r.includes, r.excludes⟩], trL m.lint, trB m.breaking⟩ := by
+  unfold migrateWorkspace migrateModule
+  constructor
+  · intro h
+    obtain ⟨m, hm, hmm⟩ := List.mem_flatMap.mp h
+    obtain ⟨r, hr, rfl⟩ := List.mem_map.mp hmm
+    exact ⟨m, hm, r, hr, rfl⟩
+  · rintro ⟨m, hm, r, hr, rfl⟩
+    exact List.mem_flatMap.mpr ⟨m, hm, List.mem_map.mpr ⟨r, hr, rfl⟩⟩
+
+/-- Through the written file: the v2 file the (fixed) migrator builds is read back unchanged, and
+    its modules are exactly the (module, root) pairs of the v1 workspace, each with the SAME
+    lint-off and breaking-off flags as the v1 module it came from. -/
+theorem migrate_workspace_disabled (trL trB : Check → Check) (ws : List Module) (deps : List Dep) (c : BufYAML)
+    (hL : ∀ x, x.disabled = false → (trL x).disabled = false)
+    (hB : ∀ x, x.disabled = false → (trB x).disabled = false)
+    (hr : ∀ m ∈ ws, WFRootsV1 m)
+    (hl : ∀ m ∈ ws, m.lint.chk.disabled = false → WFCheck (trL m.lint.chk))
+    (hb : ∀ m ∈ ws, m.breaking.chk.disabled = false → WFCheck (trB m.breaking.chk))
+    (h : migrateFile (equivLint trL) (equivBreaking trB) ws deps = some c) :
+    readV2 (writeV2 c) = some c ∧
+      (∀ m' ∈ c.modules, ∃ m ∈ ws, ∃ r ∈ m.roots,
+          offFlags m' = (m.dirPath ++ r.root, m.lint.chk.disabled, m.breaking.chk.disabled)) ∧
+      (∀ m ∈ ws, ∀ r ∈ m.roots, ∃ m' ∈ c.modules,
+          offFlags m' = (m.dirPath ++ r.root, m.lint.chk.disabled, m.breaking.chk.disabled)) := by
+  have hrt := (migrate_workspace_owners (equivLint trL) (equivBreaking trB) ws deps c hr
+    (fun m hm => equivCheck_wf trL m.lint.chk (hl m hm))
+    (fun m hm => equivCheck_wf trB m.breaking.chk (hb m hm)) h).1
+  have hp := migrateFile_modules_perm h
+  refine ⟨hrt, ?_, ?_⟩
+  · intro m' hm'
+    obtain ⟨m, hm, r, hrm, rfl⟩ := mem_migrateWorkspace.mp (hp.mem_iff.mp hm')
+    refine ⟨m, hm, r, hrm, ?_⟩
+    simp only [offFlags, equivLint, equivBreaking, equivCheck_disabled trL hL, equivCheck_disabled trB hB]
+  · intro m hm r hrm
+    refine ⟨_, hp.mem_iff.mpr (mem_migrateWorkspace.mpr ⟨m, hm, r, hrm, rfl⟩), ?_⟩
+    simp only [offFlags, equivLint, equivBreaking, equivCheck_disabled trL hL, equivCheck_disabled trB hB]
+
 /-! ### at most one owner when directories and roots do not nest -/
 
 theorem stripPrefix_some {d f p : Key} (h : stripPrefix d f = some p) : f = d ++ p := by
